@@ -389,6 +389,19 @@ func c17Build(r gen.R) (*c17Case, bool) {
 		return c, true
 	}
 	// run-time ctl counterparts on 1-3 steerable carrier rules placed at random positions and phases
+	// In some cases one rule gets one of its tags from a SecRuleUpdateActionById directive at the end of configuration
+	// A instead of carrying it itself (B and the follow-up reference carry it in the rule): a run-time removal by
+	// tag has to see tags wherever they came from.
+	lateID, lateTag := 0, ""
+	if gen.Chance(r, 0.3) {
+		ru := gen.Pick(r, c17Rules(base))
+		t := gen.Pick(r, c17Tags)
+		if !hasTag(ru, t) {
+			ru.Tags = append(ru.Tags, t)
+			lateID, lateTag = ru.ID, t
+			c.Kinds = append(c.Kinds, "ctl:tag-from-update-action")
+		}
+	}
 	rules := c17Rules(base)
 	nc := 1
 	if gen.Chance(r, 0.45) {
@@ -541,9 +554,17 @@ func c17Build(r gen.R) (*c17Case, bool) {
 			a.Items = append(a.Items, sl.Item{Rule: sl_.car.rule})
 			q.Items = append(q.Items, sl.Item{Rule: sl_.car.plain})
 		} else {
-			a.Items = append(a.Items, sl.Item{Rule: sl_.base})
+			ra := sl_.base
+			if lateTag != "" && ra.ID == lateID {
+				ra = cloneRule(ra)
+				ra.Tags = ra.Tags[:len(ra.Tags)-1]
+			}
+			a.Items = append(a.Items, sl.Item{Rule: ra})
 			q.Items = append(q.Items, sl.Item{Rule: sl_.base})
 		}
+	}
+	if lateTag != "" {
+		a.Items = append(a.Items, sl.Item{Raw: fmt.Sprintf("SecRuleUpdateActionById %d \"tag:%s\"", lateID, lateTag)})
 	}
 	c.TextA, c.TextB = a.Render(), buildB(fired).Render()
 	// isolation follow-up: the next transaction on WAF A (without any ctl firing) behaves like the base rules
@@ -712,9 +733,9 @@ func c17KindClass(kinds []string) string {
 func init() {
 	fw.Register(&fw.Prop{
 		ID: "C17", Level: "exploration",
-		Rule:        "base rule sets of 4-12 rules (ids, tags, messages incl. rules without msg, chains, some blocking) combined with 1-3 SecRuleRemoveById/ByTag/ByMsg, SecRuleUpdateTargetById/ByTag (positive targets; string and regex exclusions) and SecRuleUpdateActionById directives over single ids, several ids and ranges - or with one run-time ctl:ruleRemoveById/ByTag/ByMsg / ctl:ruleRemoveTargetById/ByTag/ByMsg on a steerable carrier rule at a random position and phase - are run next to the configuration the generator rewrote explicitly (rules deleted, targets/actions written in place; for ctl only for rules evaluated after the carrier); fired rules, match data, interruption and counters must agree. A follow-up transaction on the same WAF must behave like the base rules. Non-trivial: the two configuration texts differ and some rule fired; distinct by (configuration A, request).",
+		Rule:        "base rule sets of 4-12 rules (ids, tags, messages incl. rules without msg, chains, some blocking) combined with 1-3 SecRuleRemoveById/ByTag/ByMsg, SecRuleUpdateTargetById/ByTag (positive targets; string and regex exclusions) and SecRuleUpdateActionById directives over single ids, several ids and ranges - or with one to three run-time ctl:ruleRemoveById/ByTag/ByMsg / ctl:ruleRemoveTargetById/ByTag/ByMsg (string keys and regex keys with escape classes) on steerable carrier rules at random positions and phases, in three cases out of ten with one rule getting one of its tags from a SecRuleUpdateActionById directive rather than carrying it - are run next to the configuration the generator rewrote explicitly (rules deleted, targets/actions written in place; for ctl only for rules evaluated after the carrier); fired rules, match data, interruption and counters must agree. A follow-up transaction on the same WAF must behave like the base rules. Non-trivial: the two configuration texts differ and some rule fired; distinct by (configuration A, request).",
 		Assumptions: []string{"both sides run through the real engine; the rewritten form only uses constructs covered by C01/C08/C09", "configurations whose directive form is rejected by NewWAF are counted, not judged"},
-		Required:    []string{"kind:ctl:several", "kind:removeById", "kind:removeByTag", "kind:removeByMsg", "kind:updTargetById", "kind:updTargetByTag", "kind:updActionById", "kind:ctl:removeById", "kind:ctl:updTargetById", "isolation_followups"},
+		Required:    []string{"kind:ctl:several", "kind:removeById", "kind:removeByTag", "kind:removeByMsg", "kind:updTargetById", "kind:updTargetByTag", "kind:updActionById", "kind:ctl:removeById", "kind:ctl:updTargetById", "kind:ctl:tag-from-update-action", "isolation_followups"},
 		Plan: func(tier fw.Tier, seed int64) []fw.Batch {
 			n := 16
 			if tier == fw.Thorough {
